@@ -22,7 +22,7 @@ import TracklibVerif.Drv.Util
      statements: new <7 fields> <zone> | read <x> | add <i> <sec|min|hour|day> <nb> | conv <i> <zone> | copy <i> | rt <i>
                  | set <i> <field 0..7> <v> | abs <i> | cmp <i> <j> | sub <i> <j> | pz <i> | tz <i> | dow <i>
                  | trk <i,j,…> | tget | tset <zone> | tconv <zone> | tadd <nb>
-     outputs:    o <obj> | r <bits> <obj> | l <obj>;<obj>… | x <bits> | f <six 0/1> | s <text> | i <int> | u | err:<kind> -/
+     outputs:    o <obj> | r <bits> <obj> | l <obj>;<obj>… (an <obj> here ends with the bits of its toAbsTime()) | x <bits> | f <six 0/1> <bits a> <bits b> | s <text> | i <int> | u | err:<kind> -/
 namespace TV.Drv.C03
 open TV.ObsTime TV.Drv
 
@@ -109,12 +109,15 @@ def handleF (cmd : String) (args : List String) : Option String :=
 
 def showObsZ (o : ObsZ) : String := showStampZ o.t ++ " " ++ toString o.zone
 
+/-- a new object: fields, zone, and the bits of its `toAbsTime()` (`err:index` from month 14 on) -/
+def showObjA (o : ObsZ) : String := showObsZ o ++ " " ++ absErr [o.t] (showFloat (toAbsZ o : Float))
+
 def showOut : Out Float → String
-  | .obj o => "o " ++ showObsZ o
-  | .absobj a o => "r " ++ showFloat a ++ " " ++ showObsZ o
-  | .objs l => "l " ++ joinWith ";" (l.map showObsZ)
+  | .obj o => "o " ++ showObjA o
+  | .absobj a o => "r " ++ showFloat a ++ " " ++ showObjA o
+  | .objs l => "l " ++ joinWith ";" (l.map showObjA)
   | .scalar x => "x " ++ showFloat x
-  | .flags l => "f " ++ " ".intercalate (l.map showBool)
+  | .cmpo l a b => "f " ++ " ".intercalate (l.map showBool) ++ " " ++ showFloat a ++ " " ++ showFloat b
   | .str s => "s " ++ s
   | .int z => "i " ++ toString z
   | .unit => "u"
